@@ -192,14 +192,16 @@ func s1Probes(rng *vkit.Rng, lat []float64, is ...s1.Interval) []float64 {
 	return out
 }
 
-// regression inputs (run first on every tier): known finding, s1.Interval.Expanded returns a
-// single point when Length + 2*margin + 2*dblEpsilon evaluates to one ulp below 2*pi
-var knownExpandedReports int
-
+// regression inputs (run first on every tier).
+//  1. FIXED by /repo 44b3e8d: Expanded returned a single point when Length + 2*margin + 2*dblEpsilon
+//     evaluated to one ulp below 2*pi; these two inputs must now keep every point.
+//  2. KNOWN: Length() is -1 for the valid non-empty interval {pi, succ(-pi)}, so the full-circle
+//     guard does not fire for margins in [pi, pi+1/2) and Expanded loses every point.
 func s1ExpandedRegression(c *vkit.Collector) {
 	for _, w := range [][3]uint64{
 		{0xc008000000000000, 0x3ff0000000000001, 0x3ff243f6a8885a2e},
 		{0x3ff921fb54442d18, 0x3fe29eb9ce835144, 0x3fdfa53cda0508eb},
+		{0x400921fb54442d18, 0xc00921fb54442d17, 0x400999999999999a},
 	} {
 		a := s1.Interval{Lo: math.Float64frombits(w[0]), Hi: math.Float64frombits(w[1])}
 		mg := math.Float64frombits(w[2])
@@ -207,13 +209,21 @@ func s1ExpandedRegression(c *vkit.Collector) {
 		c.Check(fmt.Sprintf("s1.Expanded(regression) %x/%x %x", w[0], w[1], w[2]), vkit.App("s1_Interval_eqbits", vkit.App("s1_Interval_Expanded", s1Term(a), vkit.F(mg)), s1Term(ex)))
 		for _, p := range []float64{a.Lo, a.Hi} {
 			if s1Mem(a, p) && !s1Mem(ex, p) {
-				c.Violate("s1.Expanded.guard-one-ulp-below-2pi", "Expanded by a non-negative margin loses a point (result is a single point instead of the full circle)",
+				c.Violate(s1ExpandedKind(a), "Expanded by a non-negative margin loses a point",
 					map[string]interface{}{"type": "s1", "a": []float64{a.Lo, a.Hi}, "margin": mg, "p": p, "expanded": []float64{ex.Lo, ex.Hi},
 						"bits": []string{s1Bits(a), fmt.Sprintf("%x", w[2]), fmt.Sprintf("%x", math.Float64bits(p))},
-						"go": "s1.Interval{Lo: -3, Hi: math.Float64frombits(0x3ff0000000000001)}.Expanded(math.Float64frombits(0x3ff243f6a8885a2e)).Contains(-3) == false"})
+						"go": fmt.Sprintf("i := s1.Interval{Lo: math.Float64frombits(%#x), Hi: math.Float64frombits(%#x)}; i.Expanded(math.Float64frombits(%#x)).Contains(i.Lo) == false", w[0], w[1], w[2])})
 			}
 		}
 	}
+}
+
+// the known finding is exactly the interval whose Length() is negative although it is not empty
+func s1ExpandedKind(a s1.Interval) string {
+	if len(s1Segs(a)) != 0 && a.Length() < 0 {
+		return "s1.Expanded.length-minus-one"
+	}
+	return "s1.Expanded"
 }
 
 func runC19s1(c *vkit.Collector, rng *vkit.Rng, budget int) {
@@ -263,7 +273,7 @@ func runC19s1(c *vkit.Collector, rng *vkit.Rng, budget int) {
 		eqF("DirectedHausdorffDistance", vkit.App("s1_Interval_DirectedHausdorffDistance", A, Bt), float64(a.DirectedHausdorffDistance(b)))
 		eqI("IntervalFromEndpoints", vkit.App("s1_IntervalFromEndpoints", vkit.F(a.Lo), vkit.F(b.Hi)), s1.IntervalFromEndpoints(a.Lo, b.Hi))
 		eqI("IntervalFromPointPair", vkit.App("s1_IntervalFromPointPair", vkit.F(a.Lo), vkit.F(b.Hi)), s1.IntervalFromPointPair(a.Lo, b.Hi))
-		margins := []float64{0, 1e-16, 4e-16, 0.25, 1, math.Pi, 4, -1e-16, -0.25, -2, vkit.Ulps(math.Pi, -1) / 2}
+		margins := []float64{0, 1e-16, 4e-16, 0.25, 1, 3, math.Pi, 3.2, 3.6, 4, -1e-16, -0.25, -2, vkit.Ulps(math.Pi, -1) / 2}
 		m := rng.Pick(margins)
 		c.Check(fmt.Sprintf("s1.Expanded %s %x", key, math.Float64bits(m)), vkit.App("s1_Interval_eqbits", vkit.App("s1_Interval_Expanded", A, vkit.F(m)), s1Term(a.Expanded(m))))
 
@@ -348,16 +358,7 @@ func runC19s1(c *vkit.Collector, rng *vkit.Rng, budget int) {
 					c.Violate("s1.Expanded.valid", "Expanded result invalid", rep(mg))
 				}
 				if ma && !s1Mem(ex, p) {
-					// the same float expression as the guard in Expanded; pred(pred(2pi)) = two ulps below
-					gv := a.Length() + 2*mg + 2*2.220446049e-16
-					kind := "s1.Expanded"
-					if gv > vkit.Ulps(2*math.Pi, -2) {
-						kind = "s1.Expanded.guard-one-ulp-below-2pi"
-						knownExpandedReports++
-						if knownExpandedReports > 3 {
-							continue // the known finding must not crowd out other kinds (the collector keeps 20)
-						}
-					}
+					kind := s1ExpandedKind(a)
 					c.Violate(kind, "Expanded by a non-negative margin loses a point", map[string]interface{}{"type": "s1", "a": []float64{a.Lo, a.Hi}, "margin": mg, "p": p, "bits": []string{s1Bits(a), fmt.Sprintf("%x", math.Float64bits(mg)), fmt.Sprintf("%x", math.Float64bits(p))}})
 				}
 			}
